@@ -44,7 +44,16 @@ def failed_keys(prop, repo, base=None, changed=None):
     rep = core.Report(F)
     cx = props.Ctx(F)
     props.PROPS[prop]['run'](F, rep, 'quick', cx)
-    return {o['key']: o for o in rep.failed()}
+    fk = {o['key']: o for o in rep.failed()}
+    # the driver's safety net: pipeline rules that fail while an anchor function contains a construct the analysis does not look
+    # into are 'undecided' (exit 2), not violations
+    if any(o['rule'] in core.PIPE_RULES for o in fk.values()):
+        opq = core.opaque_constructs(F)
+        if opq:
+            for o in fk.values():
+                if o['rule'] in core.PIPE_RULES:
+                    o['undecided'] = opq[0]
+    return fk
 
 
 def run(prop, repo, seed=0, base_failed=None, control_only=False):
@@ -100,7 +109,10 @@ def run(prop, repo, seed=0, base_failed=None, control_only=False):
                         missed.append(m['name'])
                         results.append({'name': m['name'], 'kind': kind, 'verdict': 'MISSED', 'new_failed': new[:6]})
                 else:
-                    if new:
+                    und = [k for k in new if fk[k].get('undecided')]
+                    if new and len(und) == len(new):
+                        results.append({'name': m['name'], 'kind': kind, 'verdict': 'undecided (exit 2, no alarm): ' + fk[new[0]]['undecided'][:160]})
+                    elif new:
                         alarms.append('%s -> %s' % (m['name'], new[:3]))
                         results.append({'name': m['name'], 'kind': kind, 'verdict': 'FALSE ALARM', 'new_failed': new[:6],
                                         'what': fk[new[0]]['what'][:240]})
@@ -112,6 +124,7 @@ def run(prop, repo, seed=0, base_failed=None, control_only=False):
     shutil.rmtree(os.path.join(facts.BUILD, 'cache_scratch_%d' % os.getpid()), ignore_errors=True)
     cov = {('positive_control' if control_only else 'sensitivity'): {'mutants': len(muts), 'caught': len([r for r in results if r['kind'] == 'mutant' and r['verdict'].startswith('caught')]),
                            'benign': len(bens), 'silent': len([r for r in results if r['kind'] == 'benign' and r['verdict'] == 'silent']),
+                           'undecided': len([r for r in results if r['kind'] == 'benign' and r['verdict'].startswith('undecided')]),
                            'stale': stale, 'results': results}}
     if missed or alarms:
         raise AnalysisBroken('checker sensitivity run failed for %s: missed mutants %s; false alarms on benign variants %s' % (prop, missed, alarms))
